@@ -42,6 +42,8 @@ class Gen:
         self.nlabel = 0
         self.nconst = 0
         self.known = list(CONSTS[:2])      # names that conditions and expressions may mention
+        self.fn_consts = []                # constants defined through a user function: only referenced by data
+        self.use_fn = rng.random() < 0.35
 
     def mark(self):
         self.marker += 1
@@ -53,6 +55,7 @@ class Gen:
 
     def const_node(self, name=None):
         rng = self.rng
+        shared = name is not None
         name = name or self.fresh()
         k = rng.random()
         if k < 0.55 or not self.known:
@@ -60,6 +63,10 @@ class Gen:
             tree = num(v) if rng.random() < 0.7 or v < 0 else ("int", v, 8, "0x%02x" % v)
         else:
             tree = ("bin", rng.choice(["+", "-", "*"]), ("var", 0, [rng.choice(self.known)]), num(rng.randint(0, 3)))
+        if self.use_fn and not shared and rng.random() < 0.3 and name not in self.known:
+            # defined through a user function (never used by a condition: functions are not evaluated when arms are chosen)
+            self.fn_consts.append(name)
+            return ("const", name, ("call", "fadd", [tree]))
         if name not in self.known:
             self.known.append(name)
         return ("const", name, tree)
@@ -87,7 +94,7 @@ class Gen:
             elif r < 0.52:
                 nodes.append(self.const_node())
             elif r < 0.62 and self.known:
-                nodes.append(("ref", rng.choice(self.known)))
+                nodes.append(("ref", rng.choice(self.known + self.fn_consts)))
             elif r < 0.70:
                 self.nlabel += 1
                 nodes.append(("label", "L%d" % self.nlabel, 0))
@@ -112,6 +119,8 @@ class Gen:
             else:
                 nodes.append(self.mark())
         nodes.extend(tail)
+        if top and self.use_fn:
+            nodes.insert(rng.choice([0, len(nodes)]), ("raw", "#fn fadd(v) => v + 1"))
         return nodes
 
 
@@ -239,6 +248,11 @@ class _Env(M.Env):
         raise Unknown()
 
     def pc(self):
+        raise Unknown()
+
+    def user_call(self, name, args):
+        if name == "fadd" and len(args) == 1 and args[0][0] == "int":
+            return ("int", args[0][1] + 1, None)
         raise Unknown()
 
 
